@@ -20,10 +20,10 @@ from ..resolve import Ctx
 from .common import call_kwargs, conj_parity, denominator_kind, dot_operands, is_dot_call, reads_container, returns_of
 from .fields import check_field_indices
 
-HERMITIAN_MODULES = [
-    "xeofs.cross.cpcca", "xeofs.preprocessing.whitener", "xeofs.utils.optional.statistics",
-    "xeofs.linalg._numpy._utils", "xeofs.linalg._numpy._rotation",
-]
+# modules whose kernels implement C09's mechanisms (cross-covariance, whitener Gram matrix, correlation);
+# the fractional power and the rotation kernels are judged under C16 / C11, where a transpose without
+# conjugation changes what those properties state (it can leave C09's observables unchanged)
+HERMITIAN_MODULES = ["xeofs.cross.cpcca", "xeofs.preprocessing.whitener", "xeofs.utils.optional.statistics"]
 
 
 def check(chk):
@@ -36,7 +36,7 @@ def check(chk):
     fns = [m for c in (cp, pm.cls("ComplexCPCCA"), pm.cls("HilbertCPCCA"), pm.cls("BaseModelCrossSet")) for m in c.methods.values() if m.name != "__init__"]
     n = check_field_indices(chk, "INDEX", fns)
     chk.floor("NORM.pair", 6)
-    chk.floor("CONJ.herm", 12)
+    chk.floor("CONJ.herm", 8)
     chk.floor("CONJ.model", 6)
     chk.floor("INDEX", 60)
 
